@@ -25,12 +25,12 @@ type C20Case struct {
 	Storm    int   `json:"storm"`     // goroutines that keep opening new connections while the emulator terminates
 }
 
-var c20StateNames = []string{"idle", "pipeline-unread", "inside-MULTI", "blocked-BLPOP", "blocked-BLMOVE", "mid-frame", "big-replies-unread", "reset-before-reply", "closed-after-pipeline"}
+var c20StateNames = []string{"idle", "pipeline-unread", "inside-MULTI", "blocked-BLPOP", "blocked-BLMOVE", "mid-frame", "big-replies-unread", "reset-before-reply", "closed-after-pipeline", "hangs-up-during-termination"}
 
 func c20Gen(t *rapid.T) C20Case {
 	c := C20Case{Cycles: rapid.IntRange(1, 3).Draw(t, "cycles"), TwoStep: rapid.Bool().Draw(t, "twostep"), Second: rapid.IntRange(0, 2).Draw(t, "second") == 0, KillKind: rapid.IntRange(0, 3).Draw(t, "kill"), Storm: pick(t, "storm", 0, 0, 1, 4, 8)}
 	for n := rapid.IntRange(0, 6).Draw(t, "conns"); n > 0; n-- {
-		c.States = append(c.States, weighted(t, "state", []int{4, 3, 3, 3, 3, 3, 1, 2, 2}))
+		c.States = append(c.States, weighted(t, "state", []int{4, 3, 3, 3, 3, 3, 1, 2, 2, 3}))
 	}
 	return c
 }
@@ -177,9 +177,23 @@ func c20Run(c C20Case, st *kit.Stats) error {
 			st.Class("connections-arriving-during-termination")
 		}
 
+		// clients that hang up by themselves at the moment the emulator terminates
+		hang := make(chan struct{})
+		for i, s := range c.States {
+			if s == 9 {
+				gone[i] = true
+				go func(i int, cn *kit.Conn) {
+					<-hang
+					time.Sleep(time.Duration(i*37%200) * time.Microsecond)
+					cn.Close()
+				}(i, conns[i])
+			}
+		}
+
 		// terminate
 		done := make(chan struct{})
 		t0 := time.Now()
+		close(hang)
 		go func() {
 			if c.TwoStep {
 				emu.E.RequestTermination()
